@@ -22,9 +22,13 @@ RULE = ("per stream class: the class generator's image, post-processed so that a
         "(scan detection); 6 requests per image (unit edges, far ends, random). Expected: content = construction truth; bytes read at "
         "open ≤ metadata + 64 KiB; bytes read per request ≤ metadata + 2·len + 4·buffer (+ 2 units for compressed data) + 16 KiB, where "
         "metadata = the bytes of headers and tables the generator wrote (no term for allocated data). Non-trivial = some unit or table "
-        "of the image lies at a file offset ≥ 2^32; distinct recipe hash.")
+        "of the image lies at a file offset ≥ 2^32; distinct recipe hash. Footprint (VDI, VHD, HDS, VHDX): every read() the real code issues on "
+        "a backing handle during a request lies inside the ranges of the Lean footprint (Hv.Footprint.*, proved complete in "
+        "HvProofs/Footprint.lean) of the request enlarged to the stream's 8 KiB buffer alignment; for HDS chains per layer file.")
 ASSUMPTIONS = ["read-ahead inside Python's own file objects is outside the model; the handles here are unbuffered counting objects",
-               "the I/O bound is evaluated by the harness from the generator's geometry; the Lean side proves the wide-offset arithmetic and re-computes the content"]
+               "the numeric I/O bound is evaluated by the harness from the generator's geometry; the Lean side proves the wide-offset arithmetic, "
+               "re-computes the content and (VDI, VHD, HDS; VHDX partially) proves the footprint theorems whose footprint is compared with the recorded accesses",
+               "QCOW2 and VMDK have no footprint theorem yet (VHDX: proved for requests that touch no partially-present block): there the I/O clause is the measured bound only"]
 TIMEOUT_CASE = 60.0
 F32 = 1 << 32
 
@@ -134,11 +138,98 @@ def build(case):
     size, reader, ss = m.truth_reader(case)
     content = core.truth_ops(size, reader, case["queries"], sector_size=ss)
     meta = _meta_bytes(b.files) + (case["recipe"].get("info", {}).get("gd_bytes", 0) if isinstance(case["recipe"], dict) else 0)
-    b.truth = content + ["IO-ok"] * (len(case["queries"]) + 1)
+    b.truth = content + ["IO-ok"] * (len(case["queries"]) + 1) + ["FP-ok"] * len(case["queries"])
     b.info.update({"meta": meta, "far": _far(b.files), "branches": [case["cls"], "far" if _far(b.files) else "near"],
                    "vsize": size, "maxoff": max((im.size for im in b.files.values()), default=0)})
     b.nq = len(case["queries"])
     return b
+
+
+FP_CLASSES = ("c05", "c04", "c06", "c03")     # classes with a proved footprint (HvProofs/Footprint.lean; c03 = VHDX: partial)
+
+
+def _enlarged(q, align):
+    """the request as the AlignedStream issues it to `_read`: whole buffer blocks (not clamped to the size: `_fill_buf` is not)"""
+    a = q[1] // align * align
+    e = -(-(q[1] + q[2]) // align) * align
+    return a, e - a
+
+
+def fp_lines(case, built):
+    """driver commands evaluating the footprint of every query (enlarged to the buffer alignment)"""
+    cls = case["cls"]
+    if cls not in FP_CLASSES:
+        return []
+    out = []
+    for q in case["queries"]:
+        a, n = _enlarged(q, case["align"])
+        if cls == "c05":
+            out.append(f"vdi.footprint a {'p' if 'p' in built.files else '-'} {a} {n}")
+        elif cls == "c04":
+            out.append(f"vhd.footprint a {a} {n}")
+        elif cls == "c03":
+            out.append(f"vhdx.footprint {a} {n} " + " ".join(sorted(built.files)))
+        else:
+            out.append(f"hds.footprint {a} {n} " + " ".join(f"l{k}" for k in range(len(built.files))))
+    # what the constructor (in the model) looks at: the real code may load the same tables lazily, inside the first request
+    if cls == "c05":
+        out.append("vdi.openfp a")
+    elif cls == "c04":
+        out.append("vhd.openfp a")
+    elif cls == "c03":
+        pass          # VHDX: no open footprint defined; the real code reads nothing but BAT entries and data after open
+    else:
+        out += [f"hds.openfp l{k}" for k in range(len(built.files))]
+    return out
+
+
+def _ranges(tok_list):
+    rs = []
+    for t in tok_list:
+        if t:
+            o, n = t.split(":")
+            rs.append((int(o), int(n)))
+    return rs
+
+
+def parse_fp(cls, line):
+    """-> [ranges per backing handle, in the order the handles are opened] or None"""
+    if not line or not line.startswith("ok"):
+        return None
+    body = line[2:].strip()
+    if cls == "c06":
+        per = []
+        for part in body.split(";"):
+            _, _, rs = part.partition("=")
+            if rs == "?":
+                return None
+            per.append(_ranges(rs.split(",")))
+        return per
+    return [_ranges(body.split())]
+
+
+def _merge(rs):
+    out = []
+    for o, n in sorted(r for r in rs if r[1] > 0):
+        if out and o <= out[-1][1]:
+            out[-1][1] = max(out[-1][1], o + n)
+        else:
+            out.append([o, o + n])
+    return out
+
+
+def fp_verdict(ranges_per_handle, trace_per_handle):
+    """every recorded (pos, n) read lies inside the (merged) footprint of its handle"""
+    checked = 0
+    for h, calls in enumerate(trace_per_handle):
+        m = _merge(ranges_per_handle[h]) if h < len(ranges_per_handle) else []
+        for pos, n in calls:
+            if n <= 0:
+                continue
+            checked += 1
+            if not any(lo <= pos and pos + n <= hi for lo, hi in m):
+                return f"FP:h{h}@{pos}+{n}", checked
+    return "FP-ok", checked
 
 
 def impl_run(case, built):
@@ -147,6 +238,9 @@ def impl_run(case, built):
     try:
         s = m.open_impl(case, built)
         handles = list(sparse.TRACK)
+        for h in handles:
+            h.calls = []                  # from here on every read() on a backing handle is logged as (pos, n)
+        trace = []
         total = lambda: sum(h.bytes_read for h in handles)
         open_io = total()
         meta, align, unit = built.info["meta"], case["align"], case["unit"]
@@ -161,24 +255,53 @@ def impl_run(case, built):
                 io += ["IO-ok"] * (len(case["queries"]) - i)
                 break
             used = total() - before
+            trace.append([[list(c) for c in h.calls] for h in handles])
+            for h in handles:
+                h.calls = []
             bound = meta + 2 * q[2] + 4 * align + (2 * unit if case["comp"] else 0) + (16 << 10)
             io.append("IO-ok" if used <= bound else f"IO:{used}>{bound}")
-        return {"answers": answers + io, "errors": errors, "open_io": open_io}
+        return {"answers": answers + io + ["FP-ok"] * len(case["queries"]), "errors": errors, "open_io": open_io, "trace": trace}
     finally:
         sparse.TRACK = None
 
 
 def model_lines(case, built):
     m = mod(case["cls"])
-    return core.file_lines(built.files) + [m.open_line(case, built), m.stream_prefix(case, built) + " " + " ".join(core.op_tokens(case["queries"]))]
+    return (core.file_lines(built.files) + [m.open_line(case, built), m.stream_prefix(case, built) + " " + " ".join(core.op_tokens(case["queries"]))]
+            + fp_lines(case, built))
+
+
+def model_lines2(case, built, impl):
+    """the footprint comparison needs what the implementation run observed: the per-request access log"""
+    built.info["trace"] = impl.get("trace") if isinstance(impl, dict) else None
+    return model_lines(case, built)
 
 
 def model_parse(case, built, out):
     wf = ("wf=1" in out[0]) if out and out[0].startswith("ok") else None
     ans = core.parse_stream_answer(out[1]) if len(out) > 1 else None
+    fp, checked = [], 0
+    trace = built.info.get("trace") or []
+    nh = len(built.files) if case["cls"] == "c06" else 1
+    opens = [parse_fp("c05", l) for l in out[2 + built.nq: 2 + built.nq + nh]] if case["cls"] in FP_CLASSES and case["cls"] != "c03" else []
+    opens = [(o[0] if o else []) for o in opens]
+    for i in range(built.nq):
+        v = "FP-ok"
+        if case["cls"] in FP_CLASSES and i < len(trace) and len(out) > 2 + i:
+            rs = parse_fp(case["cls"], out[2 + i])
+            if rs is None:
+                v = "FP-ok" if out[2 + i].startswith("err") else f"FP-bad:{out[2 + i][:40]}"
+            else:
+                rs = [r + (opens[h] if h < len(opens) else []) for h, r in enumerate(rs)]
+                v, k = fp_verdict(rs, trace[i])
+                checked += k
+        fp.append(v)
+    if checked and "fp-compared" not in built.info["branches"]:
+        built.info["branches"] = built.info["branches"] + ["fp-compared"]
+    built.info["fp_accesses"] = checked
     if ans is not None:
-        ans = ans + ["IO-ok"] * (built.nq + 1)
-    return {"answers": ans, "wf": wf, "open": out[0] if out else None}
+        ans = ans + ["IO-ok"] * (built.nq + 1) + fp
+    return {"answers": ans, "wf": wf, "open": out[0] if out else None, "fp_accesses": checked}
 
 
 def nontrivial(case, built, model):
